@@ -855,7 +855,6 @@ def handle : List String → Option String
     | "der" => (m.der x p sols).map showFloat
     | _ => none
   | "c13.fit" :: variant :: rest => do
-    let fixed ← (if variant == "code" then some false else if variant == "fixed" then some true else none)
     let (assoc, rest) ← parseAssoc rest
     match rest with
     | n :: rest => do
@@ -863,8 +862,14 @@ def handle : List String → Option String
       let (models, rest) ← parseMany parseModelData n rest
       if !rest.isEmpty then none
       let g ← lookupAll assoc (globalNames models)
-      let (names, rows) ← fitJacobian fixed models g
-      some (" ".intercalate names ++ " | " ++ showListList showFloat rows)
+      let (names, rowsCode) ← fitJacobian false models g
+      let (_, rowsFixed) ← fitJacobian true models g
+      match variant with
+      | "code" => some (" ".intercalate names ++ " | " ++ showListList showFloat rowsCode)
+      | "fixed" => some (" ".intercalate names ++ " | " ++ showListList showFloat rowsFixed)
+      | "both" => some (" ".intercalate names ++ " | " ++ showListList showFloat rowsCode ++ " | "
+          ++ showListList showFloat rowsFixed)
+      | _ => none
     | [] => none
   | _ => none
 
